@@ -11,7 +11,7 @@ from ..harness import Prop, Result
 ANNOTATIONS = ["title", "description", "default", "examples", "$comment", "definitions", "$defs", "readOnly",
                "writeOnly", "contentMediaType", "contentEncoding", "$schema", "deprecated"]
 LATER = ["unevaluatedProperties", "unevaluatedItems", "dependentRequired", "dependentSchemas", "prefixItems",
-         "minContains", "maxContains", "$anchor", "$dynamicRef", "$dynamicAnchor", "$recursiveRef", "$vocabulary"]
+         "minContains", "maxContains", "$defs", "$anchor", "$dynamicRef", "$dynamicAnchor", "$recursiveRef", "$vocabulary"]
 UNKNOWN = ["x-foo", "", "Type", "TYPE", "min", "items ", "propertys", "\U0001F600", "$Ref", "ref", "nullable",
            "discriminator", "example"]
 # values that would reject (almost) everything if the keyword were honoured with its own draft's meaning
@@ -22,7 +22,7 @@ HOT = {
     "extends": [{"type": "null"}, [{"type": "null"}, {"type": "string"}], {"disallow": "any"}], "disallow": ["any", ["any"]],
     "divisibleBy": [7.5], "multipleOf": [7.5], "minProperties": [99], "maxProperties": [0], "required": [["\u0000zz"]],
     "exclusiveMinimum": [10 ** 9], "exclusiveMaximum": [-10 ** 9], "dependencies": [{"a": ["\u0000zz"], "b": ["\u0000zz"], "": ["\u0000zz"], "k": ["\u0000zz"], "c": ["\u0000zz"]}],
-    "unevaluatedProperties": [False], "unevaluatedItems": [False], "prefixItems": [[False]], "minContains": [99],
+    "unevaluatedProperties": [False], "unevaluatedItems": [False], "prefixItems": [[False]], "minContains": [99], "maxContains": [0], "$defs": [{"x": False, "a": False}],
     "dependentRequired": [{"a": ["\u0000zz"]}], "dependentSchemas": [{"a": False}], "nullable": [False],
     "type": ["null"], "enum": [[]], "minimum": [10 ** 9], "maxLength": [0], "maxItems": [0], "pattern": ["^\u0000$"],
 }
@@ -95,6 +95,9 @@ def cases(draw):
         # ... and on a subschema that merely ENCLOSES the target of a longer pointer, the target holding a
         # fragment-only reference (which must keep meaning the root document)
         w["enclosing_foreign_id"] = draw(st.integers(0, 2)) == 0
+        # ... a later specification's container name ($defs) next to a pointer that spells `definitions`, and the
+        # other family's id at the ROOT of a schema whose references are relative to an empty base
+        w["structural"] = draw(st.sampled_from([None, None, "alt-container", "root-foreign-id-empty-base"]))
         return w
     d = draw(st.sampled_from(impl.DRAFTS))
     s = draw(GS.root_schemas(d, 8))
@@ -155,7 +158,7 @@ class C10(Prop):
             "inserted).")
     ASSUMPTIONS = ["names consulted by the draft's own keywords (exclusiveMinimum/Maximum in 3/4, required in 3, "
                    "then/else in 7) and the draft's own id keyword are not foreign"]
-    GATES = {"kind:own-next-to-ref": 100, "kind:vocab": 300, "kind:other-id": 100, "kind:later": 100, "next-to-ref": 50, "foreign-id-on-enclosing-schema": 40, "hot": 300, "invalid": 300}
+    GATES = {"kind:own-next-to-ref": 100, "kind:vocab": 300, "kind:other-id": 100, "kind:later": 100, "next-to-ref": 50, "foreign-id-on-enclosing-schema": 40, "structural:alt-container": 40, "structural:root-foreign-id-empty-base": 10, "hot": 300, "invalid": 300}
     MIN_NONTRIVIAL = 300
 
     def strategy(self, tier):
@@ -235,6 +238,39 @@ class C10(Prop):
                         {"fe": 1}, {"fe": "a"}, {"fe": None}, {"fe": []}, {"fe": {}}, {"fe": "abc"}, {"fe": 2.5}])
                     applied += 1
                     res.labels.append("foreign-id-on-enclosing-schema")
+            st_ = case.get("structural")
+            if st_ == "alt-container" and isinstance(base.get("properties", {}), dict):
+                base = copy.deepcopy(base)
+                s2 = copy.deepcopy(s2)
+                for sch, foreign in ((base, False), (s2, True)):
+                    holder = {"type": ["object", "null", "string"]}
+                    if foreign:
+                        holder["$defs"] = {"x": {"type": "null"}}       # not a keyword of any of the four drafts
+                    sch.setdefault("properties", {})
+                    sch["properties"] = dict([("fh", holder), ("fd", {"$ref": "#/properties/fh/definitions/x"})],
+                                             **dict((k, v) for k, v in sch["properties"].items() if k not in ("fh", "fd")))
+                case = dict(case, root=base, instances=list(case["instances"]) + [{"fd": 1}, {"fd": None}, {"fh": None}])
+                applied += 1
+                res.labels.append("structural:alt-container")
+            if st_ == "root-foreign-id-empty-base" and GW.root_uri(case) == "" and isinstance(base.get("properties", {}), dict) \
+                    and "rel.json" not in case["docs"] and ("$id" if d <= 4 else "id") not in base:
+                other = "$id" if d <= 4 else "id"
+                base = copy.deepcopy(base)
+                s2 = copy.deepcopy(s2)
+                for sch, foreign in ((base, False), (s2, True)):
+                    if foreign:
+                        sch[other] = "http://ex.test/elsewhere/"
+                    sch.setdefault("properties", {})
+                    sch["properties"] = dict([("fr", {"$ref": "rel.json"}), ("fq", {"$ref": "rel.json#/definitions/q"})],
+                                             **dict((k, v) for k, v in sch["properties"].items() if k not in ("fr", "fq")))
+                docs3 = dict(case["docs"], **{"rel.json": {"type": "null", "definitions": {"q": {"type": "string"}}}})
+                via3 = dict(case["via"], **{"rel.json": "store"})
+                case = dict(case, root=base, docs=docs3, via=via3,
+                            instances=list(case["instances"]) + [{"fr": 1}, {"fr": None}, {"fq": 1}, {"fq": "s"}])
+                if case.get("docs_after"):
+                    case["docs_after"] = dict(case["docs_after"], **{"rel.json": docs3["rel.json"]})
+                applied += 1
+                res.labels.append("structural:root-foreign-id-empty-base")
             if case.get("ref_siblings") and applied:
                 res.labels.append("next-to-ref")
             xs = case["instances"]
